@@ -31,7 +31,7 @@ _W = {}
 def _worker_init(opts):
     _W["opts"] = opts
     _W["nixio"] = core.import_nixio()
-    _W["dir"] = tempfile.mkdtemp(prefix="nixverif-w-", dir=core.scratch_root())
+    _W["dir"] = tempfile.mkdtemp(prefix="w-", dir=opts.get("rundir") or core.scratch_root())
     _W["n"] = 0
     os.environ["TZ"] = "XXX-5:30"
     time.tzset()
@@ -53,7 +53,9 @@ def finding(stage, tx, kind, detail, facet="content", conc=None):
     act = tx["act"]
     return {"stage": stage, "action": act["name"], "out": act.get("out", "ok"), "okind": kind,
             "facet": facet, "detail": detail,
-            "replay": {"hist": tx["hist"], "act": act, "conc": conc.describe() if conc else None}}
+            "replay": {"engine": "NixModel", "hist": tx["hist"], "act": act, "from": tx["from"], "to": tx["to"],
+                       "obs": tx.get("obs", []), "opts": _W.get("opts"),
+                       "conc": conc.describe() if conc else None}}
 
 
 def kind_of(tx, act):
@@ -299,7 +301,114 @@ def probe_free_name(sess, tx, exp_to, conc, res, okind):
                                        {"raised": repr(exc)[:200], "name": nm_[:40]}, conc=conc))
 
 
-PROBES = {"reopen": probe_reopen, "lookups": probe_lookups, "free_name": probe_free_name}
+def probe_searches(sess, tx, exp_to, conc, res, okind):
+    """
+    C13: tree searches (every root, every limit, name filters), parents and referring lists on the reached
+    state - on handles kept from creation and on fresh handles.
+    """
+    state = tx["from"] if tx["to"].get("same") else tx["to"]
+    objs = {o["id"]: o for o in state["objs"]}
+
+    def bad(what, detail):
+        res["findings"].append(finding("search", tx, okind, dict(detail, what=what), conc=conc))
+
+    def names(ids):
+        return [conc.name(objs[i]["name"])[:24] if i in objs else i for i in ids]
+
+    for fresh in (False, True):
+        mode = "fresh" if fresh else "kept"
+        for it in tx.get("obs", ()):
+            root, kind, limit, want = it["root"], it["kind"], it["limit"], it["res"]
+            lim = None if limit == 1000 else limit
+            try:
+                r = sess.nf if root == 0 else sess.obj(root, fresh=fresh)
+                fn = r.find_sections if kind == "section" else r.find_sources
+                got = fn(limit=lim) if lim is not None else fn()
+                got_ids = [e.id for e in got]
+                want_ids = [sess.uuid[i] for i in want]
+                rk = "file" if root == 0 else objs[root]["kind"]
+                if got_ids != want_ids:
+                    what = ("order" if sorted(got_ids) == sorted(want_ids) else "members")
+                    bad("find_%ss/%s/%s" % (kind, rk, what),
+                        {"limit": lim, "expected": names(want), "observed": [getattr(e, "name", "?")[:24] for e in got],
+                         "handle": mode})
+                    continue
+                for nmtok in sorted(set(objs[i]["name"] for i in want)):
+                    cn = conc.name(nmtok)
+                    sub = fn(filtr=lambda x: x.name == cn, limit=lim) if lim is not None else fn(filtr=lambda x: x.name == cn)
+                    wsub = [sess.uuid[i] for i in want if objs[i]["name"] == nmtok]
+                    if [e.id for e in sub] != wsub:
+                        bad("find_%ss/%s/filtered" % (kind, rk), {"limit": lim, "name": cn[:24], "expected_n": len(wsub),
+                                                                  "observed_n": len(sub), "handle": mode})
+            except Exception as exc:  # noqa
+                bad("find_%ss/raises" % kind, {"root": root, "limit": lim, "raised": repr(exc)[:160], "handle": mode})
+        # parents
+        for o in state["objs"]:
+            if o["kind"] not in ("section", "source"):
+                continue
+            try:
+                h = sess.obj(o["id"], fresh=fresh)
+                own = o["owner"]
+                want_parent = own if (own != 0 and objs[own]["kind"] == o["kind"]) else None
+                got = h.parent if o["kind"] == "section" else h.parent_source
+                got_id = None if got is None else got.id
+                want_id = None if want_parent is None else sess.uuid[want_parent]
+                if got_id != want_id:
+                    bad("parent/%s" % o["kind"], {"entity": conc.name(o["name"])[:24],
+                                                 "expected": None if want_parent is None else conc.name(objs[want_parent]["name"])[:24],
+                                                 "observed": None if got is None else got.name[:24], "handle": mode})
+                if o["kind"] == "source":
+                    b = o
+                    while b["kind"] != "block":
+                        b = objs[b["owner"]]
+                    pb = h.parent_block
+                    if pb is None or pb.id != sess.uuid[b["id"]]:
+                        bad("parent_block", {"entity": conc.name(o["name"])[:24], "handle": mode})
+            except Exception as exc:  # noqa
+                bad("parent/raises", {"kind": o["kind"], "raised": repr(exc)[:160], "handle": mode})
+        # referring lists = inverse of the stored links
+        for o in state["objs"]:
+            try:
+                if o["kind"] == "section":
+                    h = sess.obj(o["id"], fresh=fresh)
+                    for attr, k in (("referring_blocks", "block"), ("referring_groups", "group"),
+                                    ("referring_data_arrays", "array"), ("referring_tags", "tag"),
+                                    ("referring_multi_tags", "mtag"), ("referring_sources", "source")):
+                        want = sorted(sess.uuid[x["id"]] for x in state["objs"]
+                                      if x["kind"] == k and x["rl"]["metadata"] == o["id"])
+                        got = sorted(e.id for e in getattr(h, attr))
+                        if got != want:
+                            nested = (k == "source" and any(x["kind"] == "source" and x["rl"]["metadata"] == o["id"]
+                                                            and objs[x["owner"]]["kind"] == "source" for x in state["objs"]))
+                            bad("%s%s" % (attr, "/nested_source" if nested else ""),
+                                {"expected_n": len(want), "observed_n": len(got), "handle": mode})
+                    want_all = sorted(sess.uuid[x["id"]] for x in state["objs"] if x["rl"]["metadata"] == o["id"])
+                    got_all = sorted(e.id for e in h.referring_objects)
+                    if got_all != want_all and not any(
+                            x["kind"] == "source" and x["rl"]["metadata"] == o["id"] and objs[x["owner"]]["kind"] == "source"
+                            for x in state["objs"]):
+                        bad("referring_objects/section", {"expected_n": len(want_all), "observed_n": len(got_all), "handle": mode})
+                elif o["kind"] == "source":
+                    h = sess.obj(o["id"], fresh=fresh)
+                    for attr, k in (("referring_data_arrays", "array"), ("referring_tags", "tag"),
+                                    ("referring_multi_tags", "mtag")):
+                        want = sorted(sess.uuid[x["id"]] for x in state["objs"]
+                                      if x["kind"] == k and o["id"] in x["ls"]["sources"])
+                        got = sorted(e.id for e in getattr(h, attr))
+                        if got != want:
+                            bad("source.%s" % attr, {"expected_n": len(want), "observed_n": len(got), "handle": mode})
+            except Exception as exc:  # noqa
+                bad("referring/raises", {"kind": o["kind"], "raised": repr(exc)[:160], "handle": mode})
+        if not fresh:
+            # second pass on fresh handles after reopening (no cached parents)
+            try:
+                sess.reopen(sess.nixio.FileMode.ReadOnly)
+            except Exception as exc:  # noqa
+                bad("reopen", {"raised": repr(exc)[:160]})
+                return
+
+
+PROBES = {"searches": probe_searches, "reopen": probe_reopen, "lookups": probe_lookups, "free_name": probe_free_name}
 
 
 def _run_batch(batch):
@@ -354,6 +463,8 @@ class ModelRun:
 
     def run(self):
         ctx = mp.get_context("fork")
+        rundir = tempfile.mkdtemp(prefix="nixverif-run-", dir=core.scratch_root())
+        self.opts["rundir"] = rundir
         pool = ctx.Pool(self.nworkers, initializer=_worker_init, initargs=(self.opts,))
         sem = threading.Semaphore(self.nworkers * 4)
         lock = threading.Lock()
@@ -414,9 +525,7 @@ class ModelRun:
             pool.join()
         finally:
             pool.terminate()
-            for d in os.listdir(core.scratch_root()):
-                if d.startswith("nixverif-w-"):
-                    shutil.rmtree(os.path.join(core.scratch_root(), d), ignore_errors=True)
+            shutil.rmtree(rundir, ignore_errors=True)
         if self.errors:
             raise core.MachineryError("replay workers failed (%d): %s" % (len(self.errors), self.errors[0]))
         if self.res.violation is None and self.res.rc != 0 and not self.simulate:
@@ -434,6 +543,37 @@ class ModelRun:
                 "tlc_wall_s": round(r.wall, 1)}
 
 
+def replay_file(path):
+    """./check <id> --replay <file>: re-executes one recorded transition against the current tree."""
+    with open(path) as fh:
+        rec = json.load(fh)
+    rp = rec["replay"]
+    if not rp or rp.get("engine") != "NixModel":
+        print("replay file has no NixModel transition: %s" % path)
+        return 2
+    opts = dict(rp["opts"])
+    opts["probes"] = tuple(opts.get("probes") or ())
+    _worker_init(opts)
+    try:
+        tx = {"hist": rp["hist"], "act": rp["act"], "from": rp["from"], "to": rp["to"], "obs": rp.get("obs", [])}
+        print("replaying %d history calls + %s (expected outcome %s), concretisation %s" % (
+            len(tx["hist"]), tx["act"]["name"], tx["act"].get("out"), json.dumps(rp.get("conc"), ensure_ascii=False)[:300]))
+        res = replay_one(tx)
+        if res["truncated"] and not res["findings"]:
+            print("the history prefix no longer reaches the recorded pre-state (diverges earlier)")
+        for f in res["findings"]:
+            print("MISMATCH stage=%s key=%s" % (f["stage"], key_of(f)))
+            print("  " + json.dumps(f["detail"], default=repr, ensure_ascii=False)[:800])
+        want = rec.get("key")
+        hit = any(key_of(f) == want for f in res["findings"])
+        print("recorded key %s: %s" % (want, "REPRODUCED" if hit else "not reproduced"))
+        if hit:
+            print("VIOLATION property=%s replay=%s" % (rec.get("property"), path))
+        return 1 if hit else 0
+    finally:
+        _worker_exit(None)
+
+
 def key_of(f):
     d = f["detail"]
     if f["stage"] == "outcome":
@@ -441,6 +581,8 @@ def key_of(f):
         return "%s/%s/%s/outcome:%s" % (f["action"], f["okind"], f["out"], obs.replace(" ", "_"))
     if f["stage"] in ("state",) or f["stage"].startswith("reopen"):
         return "%s/%s/%s/%s:%s" % (f["action"], f["okind"], f["out"], f["stage"], d.get("gpath", d.get("raised", "?"))[:80])
+    if f["stage"] == "search":
+        return "search/%s/%s" % (d["what"], d.get("handle", "-"))
     if f["stage"] == "lookup":
         extra = ("/" + d["pool"]) if "pool" in d and d["what"].startswith(("by_name", "name_")) else ""
         return "lookup/%s/%s%s" % (d["container"], d["what"], extra)
